@@ -302,6 +302,12 @@ def case_equality(case):
         exp = a[3] == b[3]
     where = "%s(%r) == %s(%r)" % (a[1], a[2], b[1], b[2])
     try:
+        # equality is about kind and number only: an attribute an application hangs on one of the objects
+        # (a label, a reference to its device record) must not enter
+        try:
+            b[4].verif_label = "annotated"
+        except AttributeError:
+            pass
         eq = a[4] == b[4]
         ne = a[4] != b[4]
     except Exception as e:  # noqa
